@@ -68,6 +68,7 @@ func encoderWrites(f *eng.Fn) []ast.Node {
 
 func runC10(p *eng.Prog, r *eng.Report, tier string) {
 	c := &cx{p, r, tier}
+	closedErrorNotClassified(c, "C10.18")
 	// ---- C10.1 closeSession ---------------------------------------------------
 	cs := c.fn("C10.1", "", "(*Session).closeSession")
 	if cs != nil {
